@@ -11,7 +11,9 @@ from lib import driver as D
 
 def main():
     os.makedirs(os.path.join(D.SPEC, "gen"), exist_ok=True)
-    shutil.copyfile(os.path.join(D.REPO, "go.sum"), os.path.join(D.HARNESS, "go.sum"))
+    tmp = os.path.join(D.HARNESS, "go.sum.%d.tmp" % os.getpid())
+    shutil.copyfile(os.path.join(D.REPO, "go.sum"), tmp)
+    os.replace(tmp, os.path.join(D.HARNESS, "go.sum"))
     # build the commands of the registered checks (others may be work in progress)
     claimed = claimed_props()
     cmds = ["annotate", "machine"] + [c.lower() for c in claimed if os.path.isdir(os.path.join(D.HARNESS, "cmd", c.lower()))]
